@@ -164,6 +164,7 @@ def run(rep, ctx):
     segment_rules(rep, F, FW)
     number_rules(rep, F, FW)
     packing_rule(rep, F)
+    defvar_rule(rep, F)
     return rep
 
 
@@ -800,3 +801,67 @@ def packing_rule(rep, F):
                      "the %s integer record '%s' is written for values in [%s, %s]: a constant outside [%d, %d] wraps and is read back as a different number" % (what, letter, lo, hi, wlo, whi))
     g = [x for x in recs["n"] if any(s.get("v", "").startswith("n%g") for s in walk(x) if s["k"] == "StringLiteral")]
     w3.check(len(g) == 1, "record|n", short_loc(f.loc), "every other constant is written with %g")
+
+
+# ---- T6: the position field of defined-variable records --------------------------------------------
+def defvar_rule(rep, F):
+    """`V<index> <nnz> <position>`: position 0 = used in several places, i in 1..n_con = constraint i-1,
+    n_con + j = objective j-1 where n_con counts algebraic AND logical constraints (NL format; the feeder
+    passes k = i > 0, k = 0, k = -j < 0).  The reader hands the number to EndCommonExpr unchanged."""
+    t6 = rep.rule("C03.T6", "TABLE", "defined-variable records: position = k for k >= 0, num_algebraic_cons + num_logical_cons - k for k < 0; index and nnz are the caller's", floor=2)
+    fs = [f for f in F.funcs if f.qn.endswith("::DefVarWriterFactory::StartDefVar")]
+    if not fs:
+        raise AnalysisBroken("C03.T6: DefVarWriterFactory::StartDefVar not found")
+    f = sorted(fs, key=lambda g: g.is_dependent())[0]        # an instantiation if there is one, else the template itself
+    aprs = []
+    for c in f.walk():
+        if c["k"] in ("CXXMemberCallExpr", "CallExpr"):
+            nm = (c.get("callee") or "").split("::")[-1]
+            k0 = kids(c)[0] if kids(c) else None
+            if nm == "apr" or (k0 is not None and strip(k0)["k"] in ("CXXDependentScopeMemberExpr", "MemberExpr", "UnresolvedMemberExpr") and strip(k0).get("name") == "apr"):
+                aprs.append(c)
+    if len(aprs) != 1:
+        raise AnalysisBroken("C03.T6: %d apr calls in StartDefVar" % len(aprs))
+    a = call_args(aprs[0]) if aprs[0].get("callee") else kids(aprs[0])[1:]
+    lit = [x.get("v") for x in walk(aprs[0]) if x["k"] == "StringLiteral"]
+    vals = a[2:]
+
+    def atom(e):
+        e0 = strip(e)
+        if e0["k"] in ("CXXDependentScopeMemberExpr", "MemberExpr") and e0.get("name"):
+            return e0["name"]
+        t = render(e).replace(" ", "").replace("this->", "")
+        for suf in ("num_algebraic_cons", "num_logical_cons", "k_"):
+            if t.endswith(suf) or t.endswith(suf + "()"):
+                return suf
+        return t
+
+    def aff(e):
+        e = strip(e)
+        if e["k"] == "BinaryOperator" and e.get("op") in ("+", "-"):
+            x, y = aff(kids(e)[0]), aff(kids(e)[1])
+            out = dict(x)
+            for t, v in y.items():
+                out[t] = out.get(t, 0.0) + (v if e["op"] == "+" else -v)
+            return {t: v for t, v in out.items() if v}
+        if e["k"] == "UnaryOperator" and e.get("op") == "-":
+            return {t: -v for t, v in aff(kids(e)[0]).items()}
+        return {atom(e): 1.0}
+    ok = bool(lit) and lit[0].startswith("V%d %d %d") and len(vals) >= 3 and render(vals[0]) == f.params[0]["name"] and render(vals[1]) == f.params[1]["name"]
+    t6.check(ok, "index-and-nnz", short_loc(f.loc), "the record starts with the caller's index and number of linear terms")
+    pos = strip(vals[2]) if len(vals) >= 3 else None
+    okp = False
+    got = "?"
+    if pos is not None and pos["k"] == "ConditionalOperator":
+        c, x, y = kids(pos)
+        ct = render(c).replace(" ", "").replace("this->", "")
+        if ct in ("k_>=0", "0<=k_"):
+            pa, na = aff(x), aff(y)
+        elif ct in ("k_<0", "0>k_"):
+            pa, na = aff(y), aff(x)
+        else:
+            raise AnalysisBroken("C03.T6: position selector `%s` outside the fragment" % ct)
+        got = "k>=0: %s; k<0: %s" % (pa, na)
+        okp = pa == {"k_": 1.0} and na == {"num_algebraic_cons": 1.0, "num_logical_cons": 1.0, "k_": -1.0}
+    t6.check(okp, "position", short_loc(f.loc), "position = k_ (k_ >= 0) or num_algebraic_cons + num_logical_cons - k_ (objective -k_ - 1)",
+             "the position written for a defined variable is `%s`: with logical constraints in the model the number names another item than the objective the variable belongs to" % got)
